@@ -482,12 +482,18 @@ func runC13(k *kernel.K) {
 		}
 		msgs[id] = m
 		resps[id] = rs
+		tc := traffic
 		if w.Chance(1, 3) {
-			traffic2.Add(r)
+			tc = traffic2
 			k.Probe("exchange_on_second_connection")
-		} else {
-			traffic.Add(r)
 		}
+		if w.Chance(1, 5) {
+			// the client looks at the verification results itself, on the connection it uses for
+			// traffic (not judged as a query; what follows on the connection is ordinary traffic)
+			tc.Add(apiReq(930+i, "GET", "/verify", ""))
+			k.Probe("api_request_on_a_traffic_connection")
+		}
+		tc.Add(r)
 		k.Note("exchange #%d %s %s cond=%q hdr=%v -> %d cond=%q hdr=%v", id, m.method, r.Target(), m.reqCond, m.reqHdr, m.status, m.resCond, m.resHdr)
 	}
 	var ops []*c13Op
